@@ -149,6 +149,7 @@ func runC04(c *Ctx) {
 		c.undecided("R4", "instance-floor", "", fmt.Sprintf("%d conversion / encoder call sites found, 7 confirmed by hand", nSites))
 	}
 	jsonTextAsData(c, "R5")
+	c.shared("R7", "C14/R4", "what -o writes is the root selected last: every selector's result becomes a root (a null result included)", keyHas("selector-root-unconditional", "root-list"), func(s *Ctx) { rootsPerValue(s, "R4") })
 	c.note("R6 encoder-output-unmodified: GetRootJson returns exactly string(json.MarshalIndent(ToGoValue(root), \"\", \"  \")) and json(v) exactly that of its argument: no text is produced or rewritten outside encoding/json (a hand-written fast path or a post-processing of the encoder's text is where escaping goes wrong).")
 	c.checkArm("R6", "GetRootJson", p.LangFunc("(*Evaluator).GetRootJson"), armSpec{
 		Results: []string{`string(encoding/json.MarshalIndent((*lang.Value).ToGoValue(&e.root.Value)#0, "", "  ")#0)`},
@@ -422,6 +423,9 @@ func jsonTextAsData(c *Ctx, rule string) {
 					continue
 				}
 				opened = "os.Create"
+				// the output file is only touched once the JSON text exists: truncating it earlier
+				// destroys an input that is rewritten in place (-o f.json … f.json)
+				c.check(dominatesInstr(jcall, call), rule, "json-file-opened-after-run", p.InstrPos(call), "the -o file is created after GetRootJson returned", "the -o file is created (truncated) before the program has run and the JSON text exists: `jqawk -o f.json … f.json` reads an empty file")
 			case "os.OpenFile":
 				flags, _ := constInt(call.Common().Args[1])
 				const oTrunc = 0x200
